@@ -456,7 +456,90 @@ func parseSnap(t string) snap {
 	return s
 }
 
+// c14Shared: n clients watch ONE discovery (a client pool, OneClient); some are closed, in a given order; every client
+// that is still open follows the updates published afterwards.  case: shared|n|closed,closed,...
+func c14Shared(o *common.Out, id string, n int, closeOrder []int) {
+	var cs []string
+	for _, c := range closeOrder {
+		cs = append(cs, strconv.Itoa(c))
+	}
+	abstract := fmt.Sprintf("shared|%d|%s", n, strings.Join(cs, ","))
+	o.Begin(id, abstract)
+	s0 := snap{"vsrv@d0": "", "vsrv@d1": ""}
+	d, _ := client.NewMultipleServersDiscovery(s0.pairs())
+	opt := client.DefaultOption
+	xcs := make([]client.XClient, n)
+	for i := range xcs {
+		xcs[i] = client.NewXClient("Svc", client.Failfast, client.RoundRobin, d, opt)
+	}
+	open := map[int]bool{}
+	for i := range xcs {
+		open[i] = true
+	}
+	defer func() {
+		for i, xc := range xcs {
+			if open[i] {
+				xc.Close()
+			}
+		}
+	}()
+	check := func(step string, s snap) {
+		want := s.expect("")
+		for i, xc := range xcs {
+			if open[i] && !waitServers(xc, want, s) {
+				o.Fail(id, "not-converged", fmt.Sprintf("%s: client %d of %d sharing one discovery (closed so far: %v) still selects among %v; the last published set is %v", step, i, n, closeOrder, mapKeys(client.VerifXClientServers(xc)), want), abstract)
+				return
+			}
+		}
+	}
+	s1 := snap{"vsrv@d1": "", "vsrv@d2": "", "vsrv@d3": ""}
+	d.Update(s1.pairs())
+	check("first update", s1)
+	for k, c := range closeOrder {
+		xcs[c].Close()
+		open[c] = false
+		sk := snap{fmt.Sprintf("vsrv@d%d", 4+k): "", "vsrv@d1": ""}
+		d.Update(sk.pairs())
+		check(fmt.Sprintf("update after closing client %d", c), sk)
+		// Close unregisters its watcher in a goroutine of its own: publish once more when that has happened
+		time.Sleep(3 * time.Millisecond)
+		sk2 := snap{fmt.Sprintf("vsrv@d%d", 4+k): "weight=2", "vsrv@d6": ""}
+		d.Update(sk2.pairs())
+		check(fmt.Sprintf("second update after closing client %d", c), sk2)
+	}
+	o.ImplOnly(id, abstract, true)
+	o.Count("shared-discovery")
+}
+
 func runC14(r *common.Rand, tier string, o *common.Out, replay string) {
+	if strings.HasPrefix(replay, "shared|") {
+		p := strings.Split(replay, "|")
+		n, _ := strconv.Atoi(p[1])
+		var order []int
+		for _, t := range strings.Split(p[2], ",") {
+			if t != "" {
+				c, _ := strconv.Atoi(t)
+				order = append(order, c)
+			}
+		}
+		c14Shared(o, "replay", n, order)
+		return
+	}
+	if replay == "" {
+		k := 0
+		for _, n := range []int{2, 3, 4} {
+			for _, perm := range permutations(n) {
+				for cut := 1; cut < n; cut++ {
+					if n == 4 && (cut != 2 || k%2 == 0) {
+						k++
+						continue
+					}
+					k++
+					c14Shared(o, fmt.Sprintf("sh%d", k), n, perm[:cut])
+				}
+			}
+		}
+	}
 	if replay != "" && strings.HasPrefix(replay, "flt|") {
 		p := strings.SplitN(replay, "|", 3)
 		c14Filter(o, "replay", p[1], parseSnap(p[2]))
